@@ -1,4 +1,5 @@
 CONSTANT N = 4
+CONSTANT M = 4
 CONSTANT Cases <- MCCases
 INIT Init
 NEXT Next
